@@ -188,13 +188,16 @@ impl<'a, 'tcx> Cx<'a, 'tcx> {
 fn dump_body<'tcx>(tcx: TyCtxt<'tcx>, ldid: rustc_hir::def_id::LocalDefId, out: &mut String) {
     let did = ldid.to_def_id();
     let kind = tcx.def_kind(did);
-    if !matches!(kind, DefKind::Fn | DefKind::AssocFn | DefKind::Closure | DefKind::SyntheticCoroutineBody | DefKind::Static { .. }) { return; }
+    if !matches!(kind, DefKind::Fn | DefKind::AssocFn | DefKind::Closure | DefKind::SyntheticCoroutineBody | DefKind::Static { .. } | DefKind::Const { .. } | DefKind::AssocConst { .. }) { return; }
     let (steal, promoted) = tcx.mir_promoted(ldid);
     if steal.is_stolen() {
         // a `const fn` evaluated during type checking (array lengths): its pre-borrowck MIR is gone, use the final one
         if matches!(kind, DefKind::Fn | DefKind::AssocFn) {
             let body = tcx.optimized_mir(did);
             dump_mir(tcx, did, body, None, out);
+        } else if matches!(kind, DefKind::Const { .. } | DefKind::AssocConst { .. }) {
+            // constants evaluated during type checking (array lengths): value comes from the const pass instead
+            let _ = write!(out, "{{\"stolen_const\":{}}}\n", esc(&tcx.def_path_str(did)));
         } else {
             let _ = write!(out, "{{\"stolen\":{}}}\n", esc(&tcx.def_path_str(did)));
         }
